@@ -284,6 +284,34 @@ def job_estimator(ctx, ename, k):
             _cmp_batch(ctx, f'{ename}(N samples) row = {ename}(one sample)', labels,
                        lambda idx: np.asarray(est.batch(*bargs(idx), dip, frame)),
                        lambda i: np.asarray(est.single(Acc[i].copy(), None if est.tilt_only else Mag[i].copy(), dip, frame)), 'estimator', signfree=signfree, wrap=wrap)
+            # a record with a NULL sample in the middle (all-zero accelerometer row / magnetometer row): where the N-sample call answers,
+            # every OTHER row is still the one-sample answer for its own sample (a skipped row may not shift or re-pair the rows after it)
+            sub = list(range(0, min(len(atts), 12)))
+            singles_ = {}
+            for i in sub:
+                try:
+                    singles_[i] = np.asarray(est.single(Acc[i].copy(), None if est.tilt_only else Mag[i].copy(), dip, frame))
+                except Exception:
+                    pass
+            for nm_, zero_acc, zero_mag in (('null accelerometer row', True, False), ('null magnetometer row', False, True), ('null row (both)', True, True)):
+                if est.tilt_only and zero_mag:
+                    continue
+                for pos in (3, 0):
+                    A2 = np.insert(Acc[sub], pos, Acc[sub][pos] if not zero_acc else np.zeros(3), axis=0)
+                    M2 = np.insert(Mag[sub], pos, Mag[sub][pos] if not zero_mag else np.zeros(3), axis=0)
+                    ctx.evals += 1
+                    try:
+                        with np.errstate(all='ignore'):
+                            ob = np.asarray(est.batch(A2.copy(), None if est.tilt_only else M2.copy(), dip, frame))
+                    except Exception:
+                        ctx.outcome(('null-row-refused', ename, nm_)); continue
+                    if len(ob) != len(sub) + 1:
+                        ctx.fail(f'{ename}(N samples with a {nm_}) returns one row per sample', f'frame={frame} null row at {pos}', len(ob), len(sub) + 1); continue
+                    for j, i in enumerate(sub):
+                        row = ob[j if j < pos else j + 1]
+                        if i in singles_ and not (_eq(row, singles_[i]) or (signfree and _eq(-row, singles_[i])) or (wrap and _wrap_eq(row, singles_[i], TOL))):
+                            ctx.fail(f'{ename}(N samples) row = {ename}(one sample), also in a record that contains a {nm_}', f'row={labels[i]} null row at {pos} frame={frame}', row, singles_[i], TOL)
+                    ctx.cls('estimator:null-row-in-record')
             if est.estimate is not None:
                 _cmp_batch(ctx, f'{ename}(N samples) row = {ename}().estimate(sample)', labels,
                            lambda idx: np.asarray(est.batch(*bargs(idx), dip, frame)),
